@@ -41,20 +41,45 @@ def c20_alphabet():
                   "distinct_identifiers": sorted(seen), "alphabet": sorted(ALPHABET), "exhaustive": True}
 
 
+def _replay_dirs():
+    """(crate dir, target dir).  /repo -> the committed replay crate; a scratch tree named by O2O_REPO (development: seeded changes
+    tried without touching /repo) -> a copy of the crate pointing at that tree, with its own target directory"""
+    import hashlib
+    import os
+    import shutil
+    verif = os.path.dirname(os.path.dirname(os.path.abspath(__file__)))
+    repo = os.path.abspath(os.environ.get("O2O_REPO", "/repo"))
+    if repo == "/repo":
+        return os.path.join(verif, "replay"), os.path.join(verif, "build", "replay-target")
+    h = hashlib.sha1(repo.encode()).hexdigest()[:10]
+    crate = os.path.join(verif, "build", "replay-scratch-" + h)
+    shutil.copytree(os.path.join(verif, "replay"), crate, dirs_exist_ok=True)
+    ct = os.path.join(crate, "Cargo.toml")
+    txt = open(os.path.join(verif, "replay", "Cargo.toml")).read().replace('"/repo/o2o-impl"', '"%s/o2o-impl"' % repo)
+    open(ct, "w").write(txt)
+    return crate, os.path.join(verif, "build", "replay-target-" + h)
+
+
+def _exe(name):
+    import os
+    return os.path.join(_replay_dirs()[1], "release", name)
+
+
 def replay_inputs(paths):
     """run the real o2o_impl::expand::derive (built from /repo's working tree) on each input file; one record per file"""
     import json
     import os
     import subprocess
     verif = os.path.dirname(os.path.dirname(os.path.abspath(__file__)))
-    env = dict(os.environ, CARGO_NET_OFFLINE="true", CARGO_TARGET_DIR=os.path.join(verif, "build", "replay-target"))
+    crate, target = _replay_dirs()
+    env = dict(os.environ, CARGO_NET_OFFLINE="true", CARGO_TARGET_DIR=target)
     try:
         import shutil
-        shutil.copy(os.path.join(os.environ.get("O2O_REPO", "/repo"), "Cargo.lock"), os.path.join(verif, "replay", "Cargo.lock"))
+        shutil.copy(os.path.join(os.environ.get("O2O_REPO", "/repo"), "Cargo.lock"), os.path.join(crate, "Cargo.lock"))
     except Exception:
         pass
-    b = subprocess.run(["cargo", "build", "--release", "--offline"], cwd=os.path.join(verif, "replay"), env=env, capture_output=True, text=True)
-    exe = os.path.join(verif, "build", "replay-target", "release", "o2o-replay")
+    b = subprocess.run(["cargo", "build", "--release", "--offline"], cwd=crate, env=env, capture_output=True, text=True)
+    exe = os.path.join(target, "release", "o2o-replay")
     if b.returncode != 0 or not os.path.exists(exe):
         return None, "replay crate does not build: " + b.stderr[-400:]
     p = subprocess.run([exe] + paths, capture_output=True, text=True, timeout=120)
@@ -95,7 +120,7 @@ def c10_walk_conformance():
     import subprocess
     verif = os.path.dirname(os.path.dirname(os.path.abspath(__file__)))
     recs, err = replay_inputs([])   # builds the replay crate (both binaries) from the current tree
-    exe = os.path.join(verif, "build", "replay-target", "release", "walk_conformance")
+    exe = _exe("walk_conformance")
     if recs is None or not os.path.exists(exe):
         return [], {"kind": "bounded conformance test of an assumed contract", "skipped": err or "binary missing"}
     p = subprocess.run([exe], capture_output=True, text=True, timeout=600)
@@ -146,7 +171,7 @@ def structural(suite, prop):
     import subprocess
     verif = os.path.dirname(os.path.dirname(os.path.abspath(__file__)))
     recs, err = replay_inputs([])
-    exe = os.path.join(verif, "build", "replay-target", "release", "structural")
+    exe = _exe("structural")
     target, claim, bound = STRUCT[suite]
     if recs is None or not os.path.exists(exe):
         return [], {"kind": "bounded structural stand-in", "skipped": err or "binary missing"}
@@ -171,7 +196,7 @@ def metamorphic(suite, prop):
     import subprocess
     verif = os.path.dirname(os.path.dirname(os.path.abspath(__file__)))
     recs, err = replay_inputs([])
-    exe = os.path.join(verif, "build", "replay-target", "release", "metamorphic")
+    exe = _exe("metamorphic")
     target, claim, bound = META[suite]
     if recs is None or not os.path.exists(exe):
         return [], {"kind": "bounded metamorphic stand-in", "skipped": err or "binary missing"}
@@ -208,7 +233,7 @@ def model_conformance():
     import subprocess
     verif = os.path.dirname(os.path.dirname(os.path.abspath(__file__)))
     recs, err = replay_inputs([])
-    exe = os.path.join(verif, "build", "replay-target", "release", "model_conformance")
+    exe = _exe("model_conformance")
     if recs is None or not os.path.exists(exe):
         return {"kind": "conformance test of the trusted token model", "skipped": err or "binary missing"}, None
     p = subprocess.run([exe], capture_output=True, text=True, timeout=120)
@@ -226,6 +251,10 @@ def run(prop, tier):
     r.setdefault("report", {})["token_model_conformance"] = rep
     if bad:
         r["undecided"] = bad
+    # a stand-in that could not run decides nothing: the check is undecided (exit 2), never silently green
+    for k, v in r["report"].items():
+        if isinstance(v, dict) and v.get("skipped"):
+            r["undecided"] = "stand-in %s could not run: %s" % (k, str(v["skipped"])[:300])
     return r
 
 
